@@ -179,11 +179,17 @@ func (b memBucket) Delete(key []byte) error     { return b.db.delete(b.name, key
 func (b memBucket) Iter() iter.Seq2[[]byte, []byte] {
 	return func(yield func([]byte, []byte) bool) {
 		for key, val := range b.db.buckets[b.name] {
-			if pval, ok := b.db.puts[b.name][string(key)]; ok {
-				val = pval
-			} else if _, ok := b.db.dels[b.name][string(key)]; ok {
+			if _, ok := b.db.puts[b.name][key]; ok {
+				continue // overwritten; yielded below
+			} else if _, ok := b.db.dels[b.name][key]; ok {
 				continue
 			}
+			if !yield([]byte(key), val) {
+				return
+			}
+		}
+		// unflushed puts, including keys that are not committed yet
+		for key, val := range b.db.puts[b.name] {
 			if !yield([]byte(key), val) {
 				return
 			}
